@@ -5,6 +5,7 @@ mod checks;
 mod env;
 mod gen;
 mod model;
+mod proc;
 mod report;
 mod run;
 mod spell;
